@@ -486,7 +486,7 @@ def run(ctx):
         ctx.cov["avbc_model_compared"] = len(cases)
     elif not okc:
         ctx.broken.append("coq: Model/AvbcObs.vo does not build")
-    # a crash of deserialize that the model predicts is still a crash
+    # deserialize must never panic (the model has no crash outcome any more)
     for i in sorted(accepts):
         if accepts[i] == "crash":
             b = inputs[i][2]
